@@ -6,6 +6,7 @@ import (
 	"fmt"
 	"io"
 	"log/slog"
+	"math"
 	"net"
 	"path/filepath"
 	"time"
@@ -325,6 +326,15 @@ func (s *Server[StateT]) handleWriteFile(ctx *Context[StateT]) error {
 	data, err := ctx.rd.ReadWriteFile()
 	if err != nil {
 		return fmt.Errorf("read file data to write failed: %w", err)
+	}
+
+	// amount of written data is reported as int32: payload that is too big to be reported is refused as a whole
+	if limited, ok := data.(*io.LimitedReader); ok && limited.N > math.MaxInt32 {
+		if _, drainErr := io.Copy(io.Discard, data); drainErr != nil {
+			return fmt.Errorf("drain file data failed: %w", drainErr)
+		}
+
+		return ctx.wr.SendWriteFileError()
 	}
 
 	written, err := s.Handler.HandleWriteFile(ctx, data)
